@@ -129,6 +129,26 @@ def moved(before, after, tol):
     return d, ~(d <= tol)
 
 
+def as_view(arr, R, counters):
+    """the same pixel values, held the way callers really hold them: an owned copy, or a VIEW of another array (rotated by 180
+    degrees, mirrored, a crop of a larger frame, Fortran order) - `np.rot90(a, 2)`, `a[:, ::-1]`, `big[10:, 5:]`, `a.T.copy().T`"""
+    k = R.choice(["copy", "copy", "rot180", "fliplr", "flipud", "crop", "fortran"])
+    counters["array_" + k] += 1
+    if k == "rot180":
+        return arr[::-1, ::-1].copy()[::-1, ::-1]
+    if k == "fliplr":
+        return arr[:, ::-1].copy()[:, ::-1]
+    if k == "flipud":
+        return arr[::-1].copy()[::-1]
+    if k == "crop":
+        big = np.full((arr.shape[0] + 7, arr.shape[1] + 5) + arr.shape[2:], 9, arr.dtype)
+        big[3:3 + arr.shape[0], 2:2 + arr.shape[1]] = arr
+        return big[3:3 + arr.shape[0], 2:2 + arr.shape[1]]
+    if k == "fortran":
+        return np.asfortranarray(arr)
+    return arr.copy()
+
+
 def check_flip(w0, W, H, arr, meta, probs, R, counters):
     from toasty.image import Image, ImageDescription
 
@@ -177,7 +197,7 @@ def check_flip(w0, W, H, arr, meta, probs, R, counters):
                 probs.append("PIL-backed image (prelude %s): ensure_negative_parity after a flip gives wrong rows / parity (%s)" % (prelude, meta))
             continue
         if kind == "image":
-            obj = Image.from_array(arr.copy(), wcs=w0.deepcopy())
+            obj = Image.from_array(as_view(arr, R, counters), wcs=w0.deepcopy())
         else:
             obj = ImageDescription(shape=arr.shape, wcs=w0.deepcopy())
         if obj.get_parity_sign() != p0:
@@ -198,7 +218,7 @@ def check_flip(w0, W, H, arr, meta, probs, R, counters):
             j = int(np.argmax(d))
             probs.append("%s: pixel (x=%d,y=%d) moved on the sky by %.3g pixel after flip_parity (%s)" % (kind, xs[j], ys[j], d[j] / math.radians(scale), meta))
         # ensure_negative_parity: -1, idempotent
-        obj2 = Image.from_array(arr.copy(), wcs=w0.deepcopy()) if kind == "image" else ImageDescription(shape=arr.shape, wcs=w0.deepcopy())
+        obj2 = Image.from_array(as_view(arr, R, counters), wcs=w0.deepcopy()) if kind == "image" else ImageDescription(shape=arr.shape, wcs=w0.deepcopy())
         obj2.ensure_negative_parity()
         if obj2.get_parity_sign() != -1:
             probs.append("%s: ensure_negative_parity left parity %d" % (kind, obj2.get_parity_sign()))
